@@ -77,6 +77,12 @@ def lt : Bytes → Bytes → Bool
 
 def le (a b : Bytes) : Bool := !lt b a
 
+/-- `hex.EncodeToString` (lower case) -/
+def hexLower (b : Bytes) : Bytes :=
+  b.foldr (fun c acc =>
+    let h (n : UInt8) : UInt8 := if n < 10 then 48 + n else 87 + n
+    h (c / 16) :: h (c % 16) :: acc) []
+
 end Bytes
 
 /-- a Boolean predicate on bytes holds of every byte if it holds of the 256 of them
